@@ -66,6 +66,22 @@ def run(ctx):
                            (1.2, 0.3), (1.15, 0.2), (1.4, 0.6), (1.3, 0.3), (1.05, 0.1), (1.25, 0.05)):      # incl. b = int(kappa^2 log(kappa/eps)) = 1, 2, 3
             cases.append({"fn": "gen", "name": "invert", "args": G.enc_args({"kappa": kappa, "epsilon": eps}), "ensure_bounded": True,
                           "return_scale": False, "chebyshev_basis": True, "timeout": 300})
+        # every erf-family generator at small max_scale (0.1, 0.3) and at the lowest degrees of its parity with steep shapes
+        for name in G.ERF:
+            par = 1 if name in G.ODD else 0
+            for ms in (0.1, 0.3):
+                a = dict(G.shape_args(rng, name), degree=G.right_parity_degree(rng, name, 2, 12))
+                cases.append({"fn": "gen", "name": name, "args": G.enc_args(a), "ensure_bounded": True, "return_scale": rng.random() < 0.5,
+                              "chebyshev_basis": rng.random() < 0.5, "max_scale": hexf(ms), "timeout": 300, "directed": "small max_scale"})
+            for deg in ([par + 2] if quick else [par, par + 2]):
+                if deg < 1:
+                    continue
+                a = dict(G.shape_args(rng, name), degree=deg)
+                if "delta" in a and name in ("sign", "thresh", "phase_est"):
+                    a["delta"] = rng.choice([3.0, 6.0, 12.0])
+                for cheb in (True, False):
+                    cases.append({"fn": "gen", "name": name, "args": G.enc_args(a), "ensure_bounded": True, "return_scale": False,
+                                  "chebyshev_basis": cheb, "max_scale": hexf(0.9), "timeout": 300, "directed": "lowest degrees, steep"})
         # directed: tuples on which a local optimiser started at 0.1 can miss the largest lobe
         for name, a in (("sign", {"degree": 7, "delta": 10.0}), ("sign", {"degree": 17, "delta": 10.0}), ("phase_est", {"degree": 2, "delta": 0.5}),
                         ("thresh", {"degree": 18, "delta": 10.0}), ("efilter", {"degree": 6, "delta": 0.2})):
